@@ -102,7 +102,7 @@ class World:
             return {"res": "blob_bad", "named": ["?", "?", -1, -1, -1], "why": type(e).__name__}
 
 
-async def _play(w: World, hist: list, timeout: float = 20.0) -> None:
+async def _play(w: World, hist: list, timeout: float = 90.0) -> None:
     import dpapi_ng
 
     tasks: dict[str, asyncio.Task] = {}
@@ -253,7 +253,7 @@ def play(seed: int, now: tuple[int, int], hist: list, h: str = "SHA512", now_l0:
     if now_l0 != 2:
         w.set_now(now_l0, now)
     try:
-        with taps.time_limit(120):
+        with taps.time_limit(400):
             asyncio.run(_play(w, hist))
     except taps.Hang:
         begun = [e["o"] for e in w.events if e["ev"] == "begin"]
